@@ -154,6 +154,8 @@ def specStep (s : St) (op : Op) : Option (M St) :=
   | .sweep => some (specSweep s (List.range nCalls))
   | .err _ _ => some (pure s)
   | .efun _ _ _ => some (pure s)
+  | .rest _ => some (pure s)
+  | .resto _ => some (pure s)
   | op => (compile s op).map (specRun s)
 
 /-- cells reachable from the roots -/
@@ -185,6 +187,7 @@ structure JSt where
   stop : Bool := false
   idx : Nat := 0
   anon : Nat := 0                     -- clones made by `clones n` (only counted)
+  ctx : String := ""                  -- which value builder the current operation runs (verdict text)
   pwrap : Bool := false               -- the program had more than 2^progRefBits - 1 holders
 
 def JSt.flag (j : JSt) (v : String) : JSt := { j with bad := v :: j.bad }
@@ -252,16 +255,27 @@ def judgeOk (j : JSt) (s : St) (rs sts : List String) : JSt := Id.run do
   for ((name, want), got) in exp.zip sts do
     if name == "allocd_strings" || got == "-" then pure ()
     else if name == "num_distinct_strings" then
-      -- verbs of sentences are strings that are not cells; immortal strings stay: judged at the end only
-      pure ()
+      -- existing string cells + the verb of every add_action sentence + strings that became immortal
+      match got.toInt? with
+      | none => j := j.flag s!"trace-mismatch op={j.idx} counter={name} value={got}"
+      | some g =>
+        let verbs := ((List.range nSents).filter (fun k => !isNumRoot s (rSent k))).length
+        let imm := (j.immortal.filter (fun c => match s.heap[c]? with
+          | some cell => !cell.live
+          | none => false)).length
+        let w : Int := want + (verbs : Int) + (imm : Int)
+        if g != w && !j.flagged.contains name then
+          j := { j with flagged := name :: j.flagged }
+          j := j.flag (if g > w then s!"leak op={j.idx}{j.ctx} counter={name} by=+{g - w}{wrapSfx j.wrap}"
+                       else s!"counter-low op={j.idx}{j.ctx} counter={name} by={g - w}{wrapSfx j.wrap}")
     else match got.toInt? with
       | none => j := j.flag s!"trace-mismatch op={j.idx} counter={name} value={got}"
       | some g =>
         if g != want && !j.flagged.contains name then
           let d := g - want
           j := { j with flagged := name :: j.flagged }
-          j := j.flag (if d > 0 then s!"leak op={j.idx} counter={name} by=+{d}{wrapSfx j.wrap}"
-                       else s!"counter-low op={j.idx} counter={name} by={d}{wrapSfx j.wrap}")
+          j := j.flag (if d > 0 then s!"leak op={j.idx}{j.ctx} counter={name} by=+{d}{wrapSfx j.wrap}"
+                       else s!"counter-low op={j.idx}{j.ctx} counter={name} by={d}{wrapSfx j.wrap}")
   return j
 
 /-- holders of the harness program: the blueprint and every object structure that is still allocated -/
@@ -320,6 +334,12 @@ def judgeLine (j : JSt) (op : Option Op) (line : String) : JSt :=
       if j.anon < n || !j.s.dlist.isEmpty then (j, none)
       else (if line.startsWith "ok" then { j with anon := j.anon - n } else j, some (Op.efun 0 0 0))
     | o => (j, o)
+  let j := { j with ctx := match op with
+    | some (.efun f _ _) => s!" efun={f}"
+    | some (.rest w) => s!" restore_variable={w}"
+    | some (.resto w) => s!" restore_object={w}"
+    | some (.err _ _) => " error-under-frames"
+    | _ => "" }
   let exp : Option (M St) := match op with
     | none => none
     | some op => specStep j.s op
